@@ -147,6 +147,25 @@ def run_program(seed, mode, counters, program=None, record=None):
         return [{'key': 'setup-failed', 'detail': err}], []
     vio = []
     trace = []
+    if mode == 'pending' and seed % 5 == 0:
+        # a pending boot file with a boot info table: what a stream returns must be what an
+        # extraction returns (the file "as read back" carries the table)
+        cands = [(n_, k_) for n_, (k_, c_) in sorted(files.items()) if len(c_) >= 65 and 'iso_path' in k_]
+        if cands:
+            n_, k_ = cands[0]
+            out = s.step({'op': 'add_eltorito', 'bootfile_path': k_['iso_path'], 'boot_info_table': True})
+            if out.ok:
+                counters['bit_stream_checks'] = counters.get('bit_stream_checks', 0) + 1
+                try:
+                    ex = io.BytesIO()
+                    s.iso.get_file_from_iso_fp(ex, iso_path=k_['iso_path'])
+                    with s.iso.open_file_from_iso(iso_path=k_['iso_path']) as f_:
+                        st = f_.read()
+                    if st != ex.getvalue():
+                        vio.append({'key': 'stream:boot-info-table:differs-from-extraction', 'detail': '%s: open_file_from_iso().read() and get_file_from_iso_fp() disagree in bytes %s' % (k_['iso_path'], [i_ for i_ in range(min(len(st), len(ex.getvalue()))) if st[i_] != ex.getvalue()[i_]][:3])})
+                except Exception as e_:
+                    vio.append({'key': 'stream:boot-info-table:raises:%s' % type(e_).__name__, 'detail': str(e_)})
+                del files[n_]      # its content is no longer the bytes that were added
     names = sorted(files)
     if not names:
         # the library refused every file of this case (nothing to read): a trivial case
